@@ -158,7 +158,9 @@ func (f *InterestNameField) GenInitEncoder() (string, error) {
 			value.{{.}} = value.{{.}}[:len(value.{{.}})-1]
 		}
 		if encoder.{{.}}_needDigest {
-			value.{{.}} = append(value.{{.}}, enc.Component{
+			// Never append in place: the caller's name may be a prefix slice of a longer name
+			// (a forwarding hint, a key name) whose next component would be overwritten
+			value.{{.}} = append(value.{{.}}[:len(value.{{.}}):len(value.{{.}})], enc.Component{
 				Typ: enc.TypeParametersSha256DigestComponent,
 				Val: make([]byte, 32),
 			})
